@@ -90,7 +90,8 @@ Definition reg_check (v : tval) : bool :=
 
 (* ---- client mapping, whole-connection histories
    ops: [0] open (carried through to a running tunnel, or refused), [1;k] the k-th arrival's connection ends,
-        [2] open whose tunnel is closed by its peer between RegisterTunnel and Start (or refused) *)
+        [2] open whose tunnel is closed by its peer between RegisterTunnel and Start (or refused),
+        [3] open while the user-quota lookup fails (limit source = user quota) *)
 Definition m_setting_up (pc : mpc) : bool :=
   match pc with MStart _ | MLoaded _ _ | MActive _ | MEarlyClosed => true | _ => false end.
 Definition m_outcome (pc : mpc) : N := match pc with MLive => 1 | MRefused => 2 | MDone => 3 | _ => 0 end%N.
@@ -105,7 +106,8 @@ Fixpoint m_replay v max (s : msh * list mpc) (next : nat) (ops counts : list tva
               | Some MLive => sys_step _ _ (mstep v max) s (vnat (vnth 1 o))
               | _ => s
               end, next)
-        else (step_while (mstep v max) m_setting_up 8 s next, S next) in
+        else (* [3]: GetUserQuota() fails for this arrival — the limit is unknown to it: the "unlimited, only count" branch *)
+             (step_while (mstep v (if N.eqb (op_kind o) 3 then 0 else max)) m_setting_up 8 s next, S next) in
       if pair_ok (Z.to_N (counter (fst s'))) (Z.to_N (live (fst s'))) c
          && (0 <=? counter (fst s'))%Z && (0 <=? live (fst s'))%Z
       then m_replay v max s' next' os cs else (false, s')
